@@ -50,6 +50,8 @@ func c08Alphabet(thorough bool) []string {
 	if thorough {
 		a = append(a, "bind:A:e1f1:L1lc:lc:d", "unbind:A:e1f1:L1lc:d", "write:A:e1f1:L1lc:limit:ack:2", "write:A:e1f1:L1lc:limit:noack:1", "upd:L2lc:1")
 	}
+	// a delete that carries only the id of the other peer's subscription (no addresses)
+	a = append(a, "idrm:s:B", "idrm:s:A")
 	return a
 }
 
